@@ -222,6 +222,12 @@ def chainedForeign (st : String) : Bool :=
   let es := storedKeys st
   es.any (fun e1 => e1.1 != e1.2 && es.any (fun e2 => e2.1 == e1.2 && e2.2 != e1.2))
 
+/-- one rule stored in several copies (under different keys): which copy a start-up serves is not determined by
+    the stored data alone, so "what a healthy start-up would serve" is not a function of the storage -/
+def duplicateCopies (st : String) : Bool :=
+  let es := storedKeys st
+  es.any (fun e1 => es.any (fun e2 => e1.1 != e2.1 && e1.2 == e2.2))
+
 def monitor (m : Mon) (coreOp : String) (isUpdate : Bool) (impl : String) (restartFromClean : Option Bool := none) :
     Mon × List String :=
   match parseReport impl with
@@ -280,7 +286,7 @@ def monitor (m : Mon) (coreOp : String) (isUpdate : Bool) (impl : String) (resta
     -- anything: what a healthy start-up on the storage would serve is what it would have served before
     let f8 := match restartFromClean, m.prev with
       | some _, some p =>
-        if rep.out == "load-failed" && p.l != "err" && rep.l != p.l then
+        if rep.out == "load-failed" && p.l != "err" && rep.l != p.l && !duplicateCopies p.st then
           [s!"sig=C13.failed-initialize-lost-rules{if chainedForeign p.st then "-chained-foreign-keys" else ""} recoverable-before={p.l} recoverable-after={rep.l} storage-before={p.st}"]
         else []
       | _, _ => []
